@@ -69,7 +69,9 @@ class Profiles:
         'escape': r'{unicode}|\\[ -~\u0080-\u01ff]',
         #   'escape': r'{unicode}|\\[ -~\200-\4177777]',
         'int': r'[-]?\d+',
-        'nmchar': r'[\w-]|{nonascii}|{escape}',
+        # ASCII name characters only: everything else is {nonascii} anyway, and
+        # an overlap of the alternatives makes matching take exponential time
+        'nmchar': r'(?-i:[a-zA-Z0-9_-])|{nonascii}|{escape}',
         'num': r'[-]?\d+|[-]?\d*\.\d+',
         'positivenum': r'\d+|\d*\.\d+',
         'number': r'{num}',
